@@ -16,6 +16,8 @@ The theorems are about the latches/flags of the machines; they say nothing about
 pickle or clone internals (pickle is the identity of the modelled state by definition).
 -/
 import FairModel.Lemmas.Lifecycle
+import FairModel.Model.LifecycleSrc
+import FairModel.Lemmas.LifecycleParams
 
 namespace C19
 open Lifecycle Lifecycle.Machine
@@ -388,6 +390,364 @@ example : (Adv .repaired true).view advCls [.fit D1, .fit D2] =
 example : (Adv .repaired false).view advCls [.fit D1, .fit D2, .predict 0, .pickle, .clone, .pickle] =
     [(.retSelf, .fresh D1), (.retSelf, .fresh D2), (.ok, .fresh D2), (.raised .pickling, .fresh D2),
      (.ok, .unfitted), (.ok, .unfitted)] := by decide
+
+/-! ## the same clauses for the rule flags DERIVED FROM THE SOURCE (`Generated/LifecycleSrc.lean`, rewritten from
+the Python `ast` on every run by harness/lifters/lifecycle.py; machines in `Model/LifecycleSrc.lean`).
+The quantifier of the `decide` proofs below is the finite, generated list of classes / attribute names; the histories
+are still universally quantified (the flags are rewritten into the hand-written machines proved above).
+Modelled assumption (trusted): rebinding `self.<name>` inside the class's own methods is the only way the value
+`get_params` reports for `<name>` changes, and the callees in `fitSelfEscapes` / `predictSelfEscapes` do not do it. -/
+
+section Src
+open LifecycleSrc Generated.LifecycleSrc
+
+/-- no estimator except ExponentiatedGradient rebinds or stores into a constructor parameter anywhere in the
+    closure of `fit` / `partial_fit` -/
+theorem src_params_unchanged :
+    ∀ c ∈ [EstCls.TO, .GS, .CR, .ADV, .ADVC, .ADVR], paramsAssignedInFit c = [] ∧ paramsMutatedInFit c = [] := by
+  decide +kernel
+
+/-- F5c (KNOWN finding, kept visible): `ExponentiatedGradient.fit` rebinds exactly the parameter `nu`. -/
+theorem src_eg_params_assigned : paramsAssignedInFit .EG = ["nu"] ∧ paramsMutatedInFit .EG = [] := by
+  decide +kernel
+
+/-- every path of `fit` / `partial_fit` of every estimator ends in `return self` -/
+theorem src_fit_returns_self : ∀ c ∈ estimators, fitReturns c = ["self"] := by decide +kernel
+
+/-- no prediction entry point (predict, predict_proba, decision_function, _pmf_predict, transform, _raw_predict)
+    rebinds or stores into any attribute of the estimator, and the only outside code handed the estimator is
+    sklearn's `check_is_fitted` / `validate_data` -/
+theorem src_predict_pure :
+    ∀ c ∈ estimators, predictAssigned c = [] ∧ subset (predictSelfEscapes c) trustedPredictCallees = true := by
+  decide +kernel
+
+/-- every estimator has at least one prediction entry point that was analysed (non-vacuity of `src_predict_pure`) -/
+theorem src_predict_methods_present : ∀ c ∈ estimators, predictMethods c ≠ [] := by decide +kernel
+
+theorem src_fit_escapes_trusted : ∀ c ∈ estimators, subset (fitSelfEscapes c) trustedFitCallees = true := by
+  decide +kernel
+
+/-- every object that ThresholdOptimizer, GridSearch and ExponentiatedGradient (through `_Lagrangian`) call `.fit` on
+    is a clone / deep copy of the wrapped estimator or a freshly constructed object on every path -/
+theorem src_estimator_cloned :
+    toClones = true ∧ clonesBeforeFit .GS = true ∧ clonesBeforeFit .EG = true ∧ clonesBeforeFit .LAG = true ∧
+    (fitReceivers .GS ≠ [] ∧ fitReceivers .LAG ≠ []) := by decide +kernel
+
+/-- `fit` of ThresholdOptimizer, ExponentiatedGradient and GridSearch reads no fitted attribute before it has
+    definitely reassigned it in the same call (flow-sensitive definite-assignment analysis of the lifter).
+    CorrelationRemover: the one static path is `_create_lookup` returning early for 1-d input without setting
+    `lookup_`; that path is dead (`validate_data` raises for 1-d input right after — replayed by the harness,
+    relation `C19.cr_1d_path_dead`). -/
+theorem src_fit_history_reads :
+    fitHistoryReads .TO = [] ∧ fitHistoryReads .EG = [] ∧ fitHistoryReads .GS = [] ∧
+    fitHistoryReads .CR = ["lookup_ in _split_X"] := by decide +kernel
+
+/-- `fit` and the prediction entry points read no attribute that only `__init__` sets (and `get_params` does not
+    report).  GridSearch still DERIVES `objective_weight = 1 − constraint_weight` in `__init__`, but since the repair of
+    F5f (/repo 2f54dd0) nothing reads it. -/
+theorem src_init_derived_reads :
+    initDerivedReads .TO = [] ∧ initDerivedReads .EG = [] ∧ initDerivedReads .CR = [] ∧ initDerivedReads .GS = [] ∧
+    initDerivedDeps .GS = [("objective_weight", ["constraint_weight"])] := by decide +kernel
+
+/-- GENERIC: a `fit` that reads no stale fitted state and unconditionally reassigns every attribute a prediction reads
+    leaves the same observable fitted state whatever the estimator's history was (any old state, any branch choices) —
+    and that state is computed from the data of this fit only -/
+theorem fit_overwrites_all_fitted_state (sh : FitShape) (h1 : sh.historyReads = [])
+    (h2 : ∀ a ∈ sh.predictReads, a ∈ sh.uncond) (ch1 ch2 : String → Bool) (d : Nat) (s1 s2 : FittedState) :
+    observe sh (fitOn sh ch1 d s1) = observe sh (fitOn sh ch2 d s2) ∧
+    ∀ v ∈ observe sh (fitOn sh ch1 d s1), v = some (d, true) := by
+  have key : ∀ (ch : String → Bool) (s : FittedState), ∀ a ∈ sh.predictReads, fitOn sh ch d s a = some (d, true) := by
+    intro ch s a ha
+    have hu : a ∈ sh.uncond := h2 a ha
+    simp [fitOn, hu, h1]
+  constructor
+  · unfold observe
+    apply List.map_congr_left
+    intro a ha; rw [key ch1 s1 a ha, key ch2 s2 a ha]
+  · intro v hv
+    unfold observe at hv
+    obtain ⟨a, ha, rfl⟩ := List.mem_map.mp hv
+    exact key ch1 s1 a ha
+
+/-- the hypotheses are needed: a conditional reset (the attribute is only rewritten on some paths) lets an earlier
+    fit's value through -/
+example : observe ⟨[], ["curve"], [], ["curve"]⟩ (fitOn ⟨[], ["curve"], [], ["curve"]⟩ (fun _ => false) 2 (fun _ => some (1, true)))
+    = [some (1, true)] := by decide
+
+/-- from the source: for ThresholdOptimizer, ExponentiatedGradient and GridSearch, `fit` reads no fitted attribute
+    before reassigning it AND every fitted attribute a prediction entry point reads is reassigned on every normally
+    returning path of `fit` … -/
+theorem src_fit_shape :
+    ∀ c ∈ [EstCls.TO, .EG, .GS], (shapeOf c).historyReads = [] ∧ predictReadsNotOverwritten c = [] ∧ predictReads c ≠ [] := by
+  decide +kernel
+
+/-- … hence every fit overwrites all fitted state a prediction can see (history freedom of the attribute state) -/
+theorem src_fit_overwrites_all_fitted_state (c : EstCls) (hc : c ∈ [EstCls.TO, .EG, .GS]) (ch1 ch2 : String → Bool)
+    (d : Nat) (s1 s2 : FittedState) :
+    observe (shapeOf c) (fitOn (shapeOf c) ch1 d s1) = observe (shapeOf c) (fitOn (shapeOf c) ch2 d s2) := by
+  obtain ⟨h1, h2, _⟩ := src_fit_shape c hc
+  refine (fit_overwrites_all_fitted_state (shapeOf c) h1 ?_ ch1 ch2 d s1 s2).1
+  intro a ha
+  have : (predictReadsNotOverwritten c).contains a = false := by rw [h2]; rfl
+  by_contra hn
+  have hmem : a ∈ predictReadsNotOverwritten c := by
+    unfold predictReadsNotOverwritten
+    rw [List.mem_filter]
+    refine ⟨ha, ?_⟩
+    have hnm : a ∉ fitDefinitelyAssigned c := hn
+    simp [hnm]
+  rw [h2] at hmem; cases hmem
+
+/-- CorrelationRemover: the same, up to the one static path of `_create_lookup` (1-d input) that is dead at run time -/
+theorem src_cr_fit_shape :
+    predictReadsNotOverwritten .CR = ["lookup_"] ∧ fitHistoryReads .CR = ["lookup_ in _split_X"] := by decide +kernel
+
+/-! ### the machines under the derived flags -/
+
+theorem src_gs_rules : gsRules = gsReentrant := by decide +kernel
+
+/-- F5c stays: the moment latch is gone (re-entrant `load_data`), `nu` is still rebound -/
+theorem src_eg_rules : egRules = ⟨.reentrant, .current⟩ := by decide +kernel
+
+theorem src_cr_rule : crRule = .repaired := by decide +kernel
+
+theorem src_to_clones : toClones = true := by decide +kernel
+
+theorem src_gs_refines_spec (ops : List Op) : GSsrc.view gsCls ops = Spec.view specCls ops := by
+  unfold GSsrc; rw [src_gs_rules]; exact gs_reentrant_refines_spec ops
+
+theorem src_gs_history_free (ops : List Op) (d : Data) : GSsrc.run (ops ++ [.fit d]) = GSsrc.run [.fit d] := by
+  unfold GSsrc; exact gs_reentrant_history_free _ (by rw [src_gs_rules]; rfl) ops d
+
+theorem src_gs_fit_returns_self (s : GSState) (d : Data) : (GSsrc.step s (.fit d)).2 = .retSelf := by
+  unfold GSsrc; rw [src_gs_rules]; simp [GS, gsStep, gsReentrant, loadConstraints]
+
+/-- ExponentiatedGradient with `nu` given by the user: today's source refines the specification … -/
+theorem src_eg_refines_spec_nu_given (ops : List Op) :
+    (EGsrc true).view (egCls true) ops = Spec.view specCls ops := by
+  unfold EGsrc; rw [src_eg_rules]
+  apply view_eq_of_sim (EG ⟨.reentrant, .current⟩ true) Spec
+    (fun s t => s.nuParam = some .given ∧ s.started = t.isSome ∧
+                s.fitted = t.map (fun d => (d, Nu.given))) (egCls true) specCls ⟨rfl, rfl, rfl⟩
+  · rintro ⟨m, n, st, f⟩ t o ⟨h1, h2, h3⟩
+    simp only at h1 h2 h3; subst h1 h2 h3
+    cases o <;> cases t <;> simp [EG, egStep, Spec, loadConstraints]
+  · rintro ⟨m, n, st, f⟩ t ⟨h1, h2, h3⟩
+    simp only at h1 h2 h3; subst h1 h2 h3
+    cases t <;> simp [egCls, specCls, egFreshNu]
+
+/-- … and never changes `nu` -/
+theorem src_eg_nu_unchanged_nu_given (ops : List Op) : ((EGsrc true).run ops).nuParam = some .given := by
+  unfold EGsrc; rw [src_eg_rules]
+  have h : ∀ (ops : List Op) (s : EGState), s.nuParam = some .given →
+      ((EG ⟨.reentrant, .current⟩ true).runFrom s ops).nuParam = some .given := by
+    intro ops
+    induction ops with
+    | nil => intro s hs; exact hs
+    | cons o os ih =>
+      intro s hs
+      apply ih
+      cases o <;> simp [EG, egStep, loadConstraints, hs]
+      · split <;> simp [hs]
+  exact h ops _ rfl
+
+/-- F5c under today's source, `nu=None`: the first fit's automatic `nu` is kept by every later fit (known finding) -/
+theorem src_eg_nu_none_is_f5c :
+    (EGsrc false).view (egCls false) [.fit D1, .fit D2] = [(.retSelf, .fresh D1), (.retSelf, .staleNu D2 D1)] ∧
+    ((EGsrc false).run [.fit D1]).nuParam = some (.auto D1) := by
+  decide +kernel
+
+theorem src_cr_refines_spec (ops : List Op) : CRsrc.view crCls ops = Spec.view specCls ops := by
+  unfold CRsrc; rw [src_cr_rule]; exact cr_refines_spec ops
+
+theorem src_cr_history_free (ops : List Op) (d : Data) : CRsrc.run (ops ++ [.fit d]) = CRsrc.run [.fit d] := by
+  unfold CRsrc; rw [src_cr_rule]; exact cr_history_free ops d
+
+theorem src_to_refines_spec (ops : List Op) : TOsrc.view toCls ops = Spec.view specCls ops := by
+  unfold TOsrc; rw [src_to_clones]; exact to_refines_spec ops
+
+theorem src_to_history_free (ops : List Op) (d : Data) : TOsrc.run (ops ++ [.fit d]) = TOsrc.run [.fit d] := by
+  unfold TOsrc; rw [src_to_clones]; exact to_history_free ops d
+
+/-- the adversarial step function written over the three lifted boolean rules (`reinitialize = …` in fit, the guard
+    of `self.__setup` in `_validate_input`, the keep condition of `BackendEngine.__init__`) IS the repaired rule -/
+theorem src_adv_step_eq (w : Bool) (s : AdvState) (o : Op) : advStepSrc w s o = advStep .repaired w s o := by
+  rcases s with ⟨c, u, e⟩
+  cases o <;> try rfl
+  cases w <;> cases c <;> cases u <;> cases e <;>
+    simp [advStepSrc, advStep, advSetupCond, advReinit, advKeepEngine, newEngineSrc, newEngine, fitReturns]
+
+theorem src_adv_machine_eq (w : Bool) : ADVsrc w = Adv .repaired w := by
+  unfold ADVsrc Adv; congr 1; funext s o; exact src_adv_step_eq w s o
+
+theorem src_adv_history_free (ops : List Op) (d : Data) :
+    (ADVsrc false).run (ops ++ [.fit d]) = (ADVsrc false).run [.fit d] := by
+  rw [src_adv_machine_eq]; exact adv_history_free ops d
+
+theorem src_adv_refines_spec (ops : List Op) :
+    (ADVsrc false).maskPickle.view advCls ops = Spec.view specCls ops := by
+  rw [src_adv_machine_eq]; exact adv_refines_spec ops
+
+example : (EGsrc true).view (egCls true) [.fit D1, .predict 1, .clone, .fit D2, .pickle, .fit D1] =
+    [(.retSelf, .fresh D1), (.ok, .fresh D1), (.ok, .unfitted), (.retSelf, .fresh D2), (.ok, .fresh D2),
+     (.retSelf, .fresh D1)] := by decide +kernel
+
+example : (ADVsrc false).view advCls [.fit D1, .fit D2, .clone, .fit D2] =
+    [(.retSelf, .fresh D1), (.retSelf, .fresh D2), (.ok, .unfitted), (.retSelf, .fresh D2)] := by decide +kernel
+
+end Src
+
+/-! ## histories with `set_params` between fits (`Model/LifecycleParams.lean`)
+
+`fit; set_params(p=v); fit` must equal `fresh(p=v).fit`.  `set_params` is `setattr` on the parameter only, so the
+clause holds for every history exactly when `fit` reads nothing that `__init__` derived from a parameter. -/
+
+section Params
+open LifecycleParams Generated.LifecycleSrc
+
+/-- an estimator whose `fit` reads only constructor parameters: for EVERY history over fit / predict / pickle /
+    clone / set_params it shows the specification's view — in particular a fit after `set_params(p=v)` gives the
+    model of a fresh estimator constructed with `p=v` -/
+theorem params_refines_spec (p0 : Nat) (ops : List POp) : view false p0 ops = specView p0 ops :=
+  view_false_eq_spec p0 ops
+
+/-- the specification's own content: after any history, `fit d` leaves "fresh twin on d with the parameter value
+    of the last `set_params`" -/
+theorem spec_fit_uses_current_params (p0 : Nat) (ops : List POp) (d : Data) :
+    pspecCls (runWith pspecStep ⟨p0, none⟩ (ops ++ [.fit d])) = .fresh d (currentParam p0 ops) := by
+  rw [runWith_snoc]
+  show PCls.fresh d (runWith pspecStep ⟨p0, none⟩ ops).param = _
+  rw [spec_param]
+
+/-- an estimator whose `fit` reads an attribute derived in `__init__`: 2-operation witness
+    `set_params(p=v1); fit(D1)` is like no fresh twin; `clone` (which re-runs `__init__`) heals it -/
+theorem params_stale_derived_not_spec : ¬ ∀ ops, view true 0 ops = specView 0 ops := by
+  intro h; exact absurd (h [.setParam 1, .fit D1]) (by decide)
+
+example : view true 0 [.setParam 1, .fit D1] = [(.ok, .unfitted), (.retSelf, .other)] := by decide
+example : view true 0 [.setParam 1, .clone, .fit D1] = [(.ok, .unfitted), (.ok, .unfitted), (.retSelf, .fresh D1 1)] := by
+  decide
+example : view false 0 [.fit D1, .setParam 1, .predict, .fit D2, .setParam 0, .fit D1] =
+    [(.retSelf, .fresh D1 0), (.ok, .fresh D1 0), (.ok, .fresh D1 0), (.retSelf, .fresh D2 1), (.ok, .fresh D2 1),
+     (.retSelf, .fresh D1 0)] := by decide
+
+/-- from the source: no estimator reads, in `fit` or a prediction entry point, an attribute that `__init__` derived
+    from a constructor parameter (what the adversarial `__init__` chain derives depends on no parameter; GridSearch's
+    `objective_weight` is no longer read) … -/
+theorem src_no_stale_derived :
+    ∀ c ∈ [EstCls.TO, .EG, .GS, .CR, .ADV, .ADVC, .ADVR], staleAfterSetParams c = [] := by decide +kernel
+
+/-- … so their `set_params` histories refine the specification -/
+theorem src_params_refines_spec (c : EstCls) (hc : c ∈ [EstCls.TO, .EG, .GS, .CR, .ADV, .ADVC, .ADVR]) (p0 : Nat)
+    (ops : List POp) : view (readsDerivedSrc c) p0 ops = specView p0 ops := by
+  have h : readsDerivedSrc c = false := by
+    unfold readsDerivedSrc; rw [src_no_stale_derived c hc]; rfl
+  rw [h]; exact view_false_eq_spec p0 ops
+
+/-- F5f (found by this check, repaired in /repo 2f54dd0): `GridSearch.fit` used to read `objective_weight`, which
+    `__init__` computed as `1.0 - constraint_weight` and `set_params(constraint_weight=…)` does not update — the stale
+    machine `view true` above (`params_stale_derived_not_spec`).  Today's source: the machine reads no derived attribute. -/
+theorem src_gs_set_params_repaired :
+    readsDerivedSrc .GS = false ∧
+    view (readsDerivedSrc .GS) 0 [.setParam 1, .fit D1] = [(.ok, .unfitted), (.retSelf, .fresh D1 1)] := by
+  decide +kernel
+
+end Params
+
+/-! ## ThresholdOptimizer with `prefit=True`
+
+History freedom there means: the thresholds depend on the data of the last fit and on the user's fitted estimator AS THE
+USER LEFT IT — `fit` never refits that object.  `clone` drops the fitted state of the nested estimator, after which `fit`
+fails exactly like a fresh ThresholdOptimizer(prefit=True) around an unfitted estimator. -/
+
+section Prefit
+
+def cloneFree (ops : List Op) : Prop := ∀ o ∈ ops, o ≠ Op.clone
+
+theorem to_prefit_inv (h0 : List Data) (hne : h0 ≠ []) :
+    ∀ (ops : List Op) (s : TOPreState), cloneFree ops → s.user = h0 →
+      ((TOPre false h0).runFrom s ops).user = h0 := by
+  intro ops
+  induction ops with
+  | nil => intro s _ hs; exact hs
+  | cons o os ih =>
+    intro s hc hs
+    apply ih
+    · intro o' ho'; exact hc o' (List.mem_cons_of_mem _ ho')
+    · have hn : s.user.isEmpty = false := by rw [hs]; cases h0 <;> simp_all
+      cases o with
+      | fit d => simp only [TOPre, toPreStep, hn, Bool.false_eq_true, if_false]; exact hs
+      | predict k => exact hs
+      | pickle => exact hs
+      | clone => exact absurd rfl (hc .clone (by simp))
+
+/-- the user's estimator is never refitted: after any clone-free history its fit history is what the user left -/
+theorem to_prefit_user_estimator_untouched (h0 : List Data) (hne : h0 ≠ []) (ops : List Op) (hc : cloneFree ops) :
+    ((TOPre false h0).run ops).user = h0 :=
+  to_prefit_inv h0 hne ops _ hc rfl
+
+/-- … and a fit after any clone-free history gives the state of a first fit -/
+theorem to_prefit_history_free (h0 : List Data) (hne : h0 ≠ []) (ops : List Op) (hc : cloneFree ops) (d : Data) :
+    (TOPre false h0).run (ops ++ [.fit d]) = (TOPre false h0).run [.fit d] := by
+  rw [run_snoc, run_single]
+  have hu := to_prefit_user_estimator_untouched h0 hne ops hc
+  have hn : h0.isEmpty = false := by cases h0 <;> simp_all
+  generalize (TOPre false h0).run ops = s at hu
+  rcases s with ⟨u, e, f⟩
+  simp only at hu; subst hu
+  simp [TOPre, toPreStep, toPreInit, hn]
+
+theorem to_prefit_fit_returns_self (h0 : List Data) (hne : h0 ≠ []) (ops : List Op) (hc : cloneFree ops) (d : Data) :
+    ((TOPre false h0).step ((TOPre false h0).run ops) (.fit d)).2 = .retSelf ∧
+    toPreCls h0 ((TOPre false h0).run (ops ++ [.fit d])) = .fresh d := by
+  have hn : h0.isEmpty = false := by cases h0 <;> simp_all
+  constructor
+  · have hu := to_prefit_user_estimator_untouched h0 hne ops hc
+    generalize (TOPre false h0).run ops = s at hu
+    rcases s with ⟨u, e, f⟩
+    simp only at hu; subst hu
+    simp [TOPre, toPreStep, hn]
+  · rw [to_prefit_history_free h0 hne ops hc d, run_single]
+    simp [TOPre, toPreStep, toPreInit, hn, toPreCls]
+
+/-- clone then fit ≡ a fresh ThresholdOptimizer(prefit=True) around an UNFITTED estimator: both fail in the same way -/
+theorem to_prefit_clone_then_fit (h0 : List Data) (ops : List Op) (d : Data) :
+    (TOPre false h0).run (ops ++ [.clone, .fit d]) = (TOPre false []).run [.fit d] ∧
+    ((TOPre false []).step (toPreInit []) (.fit d)).2 = .raised .attribute := by
+  constructor
+  · have : ops ++ [Op.clone, Op.fit d] = (ops ++ [.clone]) ++ [.fit d] := by simp
+    rw [this, run_snoc, run_snoc, run_single]
+    simp [TOPre, toPreStep, toPreInit]
+  · rfl
+
+theorem to_prefit_predict_pure (r : Bool) (h0 : List Data) (s : TOPreState) (k : Nat) :
+    ((TOPre r h0).step s (.predict k)).1 = s := rfl
+
+theorem to_prefit_pickle_roundtrip (r : Bool) (h0 : List Data) (s : TOPreState) :
+    ((TOPre r h0).step s .pickle).1 = s := rfl
+
+/-- why it matters: a prefit branch that fitted the user's object would change it with every fit -/
+theorem to_prefit_refit_touches_user_estimator :
+    ((TOPre true [D1]).run [.fit D2]).user ≠ [D1] ∧
+    toPreCls [D1] ((TOPre true [D1]).run [.fit D2]) = .other := by decide
+
+/-- from the source: the prefit branch of `ThresholdOptimizer.fit` fits nothing and aliases the user's estimator -/
+theorem src_to_prefit : Generated.LifecycleSrc.toPrefitRefits = false ∧ Generated.LifecycleSrc.toPrefitAliases = true := by
+  decide +kernel
+
+theorem src_to_prefit_history_free (h0 : List Data) (hne : h0 ≠ []) (ops : List Op) (hc : cloneFree ops) (d : Data) :
+    (LifecycleSrc.TOPreSrc h0).run (ops ++ [.fit d]) = (LifecycleSrc.TOPreSrc h0).run [.fit d] ∧
+    ((LifecycleSrc.TOPreSrc h0).run ops).user = h0 := by
+  have h : LifecycleSrc.TOPreSrc h0 = TOPre false h0 := by
+    unfold LifecycleSrc.TOPreSrc; rw [src_to_prefit.1]
+  rw [h]
+  exact ⟨to_prefit_history_free h0 hne ops hc d, to_prefit_user_estimator_untouched h0 hne ops hc⟩
+
+example : (TOPre false [D2w]).view (toPreCls [D2w]) [.predict 0, .fit D1, .fit D2, .pickle, .predict 5, .clone, .fit D1, .predict 1] =
+    [(.raised .notFitted, .unfitted), (.retSelf, .fresh D1), (.retSelf, .fresh D2), (.ok, .fresh D2), (.ok, .fresh D2),
+     (.ok, .unfitted), (.raised .attribute, .broken .attribute), (.raised .attribute, .broken .attribute)] := by decide
+
+end Prefit
 
 /-! ## the specification itself carries the clauses of the property -/
 
